@@ -34,7 +34,7 @@ pub fn scenarios(tier: Tier) -> Vec<Scenario> {
     let q = tier == Tier::Quick;
     let m = menu();
     let mut out = vec![];
-    for (name, k, nmenu, depth) in if q { vec![("k2-menu4", 2usize, 4usize, 7usize), ("k3-menu3", 3, 3, 9)] } else { vec![("k2-menu6", 2, 6, 10), ("k3-menu4", 3, 4, 11), ("k3-menu6", 3, 6, 9)] } {
+    for (name, k, nmenu, depth) in if q { vec![("k2-menu4", 2usize, 4usize, 7usize), ("k3-menu3", 3, 3, 9), ("inside-k2-menu3", 2, 3, 6)] } else { vec![("k2-menu6", 2, 6, 10), ("k3-menu4", 3, 4, 11), ("k3-menu6", 3, 6, 9), ("inside-k2-menu6", 2, 6, 7), ("inside-k3-menu3", 3, 3, 8)] } {
         let mut alpha: Vec<Action> = vec![Action::OpenReader];
         for i in 0..k {
             alpha.push(Action::CloseReader(i));
@@ -45,6 +45,13 @@ pub fn scenarios(tier: Tier) -> Vec<Scenario> {
         // rolled-back writers (the two largest bodies)
         alpha.push(Action::Tx { ops: m[2].clone(), commit: false });
         alpha.push(Action::Tx { ops: m[3].clone(), commit: false });
+        if name.starts_with("inside") {
+            // a reader that begins while a write transaction is open (before its commit / its rollback)
+            for b in m.iter().take(nmenu) {
+                alpha.push(Action::TxReaderInside { ops: b.clone(), commit: true });
+            }
+            alpha.push(Action::TxReaderInside { ops: m[2].clone(), commit: false });
+        }
         // a writer whose final sync fails (commit returns an error, the new state may be visible)
         alpha.push(Action::TxFail { ops: m[1].clone(), call: 1001 });
         let or = Oracles { readers_frozen: true, dump_after: true, ..Oracles::NONE };
